@@ -329,10 +329,12 @@ func init() {
 		s.Register("run", runHandler)
 		s.Register("rec", recHandler)
 		s.Register("onlyA", runHandler)
+		s.Register("relay", relayHandler)
 	}
 	native.Contracts[addrB] = func(s *native.NativeService) {
 		s.Register("run", runHandler)
 		s.Register("onlyB", runHandler)
+		s.Register("relay", relayHandler)
 	}
 	families["atomic"] = func() hx.Family { return &atomic{reps: 1} }
 }
@@ -342,8 +344,8 @@ func init() {
 type atomic struct {
 	reps    int // executions of every block (C16: must all be identical)
 	twin    bool
-	led     *ledger
-	led2    *ledger // second ledger with the same history (fresh stores), when twin
+	led     *ledgerT
+	led2    *ledgerT // second ledger with the same history (fresh stores), when twin
 	nonce   uint32
 	lastBlk *types.Block
 	lastRes store.ExecuteResult
